@@ -1022,18 +1022,17 @@ def run(prog, rep, tier):
     if tier == 'thorough':
         # sweep: the single-writer rule over every scheduler class that
         # inherits the node-list representation
-        base = prog.cls(*BASE)
-        extra = [k for k in prog.subclasses(base, strict=True)
-                 if k.name not in ('Continuous', 'ContinuousJsrun')
-                 and prog.find_method(k, '_change_slot_states') is not None
-                 and prog.find_method(k, '_change_slot_states').cls is not k
-                 or k.name in ('ContinuousOrdered', 'ContinuousColo',
-                               'ContinuousReconfig')]
-        rep.rule('R01.1s', 'sweep of R01.1 over all scheduler subclasses that '
-                 'use the inherited node list', minimum=0)
-        r01_1(prog, rep, rid='R01.1s', extra_classes=[k for k in extra if k.name
-              not in ('Continuous', 'ContinuousJsrun')])
-
+        # (subclasses of the two anchored schedulers; Hombre/Flux/Noop keep
+        # their own structures and are out of scope - DESIGN 5.0)
+        extra = []
+        for anchor in (prog.cls(*CONT), prog.cls(*JSRUN)):
+            for k in prog.subclasses(anchor, strict=True):
+                if k not in extra:
+                    extra.append(k)
+        rep.rule('R01.1s', 'sweep of R01.1 over all subclasses of Continuous / '
+                 'ContinuousJsrun', minimum=0)
+        r01_1(prog, rep, rid='R01.1s', extra_classes=extra)
+        rep.stat('sweep_classes', len(extra))
 
 # ------------------------------------------------------------------------------
 # self-test variants (thorough tier / --selftest)
